@@ -84,6 +84,53 @@ def write_baseline(suite, src=None):
     return 0
 
 
+# bounded stand-ins (labelled bounded in the evidence, never counted as proved): property -> script
+PROP_BOUNDED = {
+    'C07': 'harness/c07_bounded.py',
+}
+
+
+def run_bounded(prop, tier, src=None):
+    '''-> (info dict for the evidence | None, [violation lines], [problems])'''
+    script = PROP_BOUNDED.get(prop)
+    if script is None:
+        return None, [], []
+    import subprocess
+    py = os.path.join(ROOT, '.venv', 'bin', 'python')
+    env = dict(os.environ)
+    if src:
+        env['PYVC_REPO_SRC'] = src
+    t0 = time.time()
+    try:
+        p = subprocess.run([py, os.path.join(ROOT, script), '--tier', tier], cwd=ROOT, capture_output=True, text=True,
+                           timeout=3000, env=env)
+    except subprocess.TimeoutExpired:
+        return None, [], ['bounded stand-in %s timed out' % script]
+    try:
+        info = json.loads(p.stdout.strip().splitlines()[-1])
+    except Exception:
+        return None, [], ['bounded stand-in %s crashed: %s' % (script, (p.stderr or p.stdout)[-300:])]
+    info['wall_s'] = round(time.time() - t0, 2)
+    info['script'] = script
+    lines = []
+    os.makedirs(os.path.join(ROOT, 'replays'), exist_ok=True)
+    seen = set()
+    for f in info.get('failures', []):
+        key = (f.get('check'), json.dumps(f.get('message'), sort_keys=True), f.get('stream'))
+        if key in seen:
+            continue
+        seen.add(key)
+        name = '%s-bounded-%s-%d.json' % (prop, re.sub(r'[^A-Za-z0-9]+', '_', str(f.get('check'))), len(lines))
+        path = os.path.join(ROOT, 'replays', name)
+        with open(path, 'w') as fh:
+            json.dump({'property': prop, 'bounded': script, 'obligation': 'bounded stand-in %s: %s' % (script, f.get('check')),
+                       'failure': f, 'repo_src': src or os.environ.get('PYVC_REPO_SRC') or '/repo/src'}, fh, indent=1)
+        lines.append('VIOLATION property=%s replay=%s' % (prop, path))
+        if len(lines) >= 5:
+            break
+    return info, lines, []
+
+
 def ob_relevant(o, prop, unit):
     '''Is this obligation part of the argument for `prop`?'''
     if prop in o['props']:
@@ -243,6 +290,11 @@ def main(argv=None):
             if not reproduced:
                 line += ' no-failing-input-found'
             vio_lines.append(line)
+    bounded, b_lines, b_problems = run_bounded(prop, a.tier, a.src)
+    for line in b_lines:
+        vio_notes.append('bounded stand-in found a failing input on the real code (see the replay file)')
+    vio_lines.extend(b_lines)
+    problems.extend(b_problems)
     for kf, o in known_seen:
         if kf['property'] == prop:
             print('KNOWN-FINDING: property=%s %s [%s]' % (prop, kf['what'], o['id']))
@@ -272,6 +324,9 @@ def main(argv=None):
             'undecided': undecided, 'checker_problems': problems, 'units_run_twice': retried,
             'known_findings_seen': [{'what': kf['what'], 'obligation': o['id']} for kf, o in known_seen],
             'violations': vio_lines, 'failed_obligations': vio_notes,
+            'bounded': ({k: v for k, v in bounded.items() if k != 'failures'} if bounded else None),
+            'bounded_note': 'coverage.bounded is a BOUNDED stand-in for an assumed contract (stated there); it is not '
+                            'part of obligations/discharged and is never counted as proved',
             'samples': samples,
             'explanation': 'obligations are contract clauses (ensures / raises / invariants / callee preconditions / '
                            'frame / D-Bus signature conformance) of the functions listed, generated from the current '
